@@ -1,6 +1,6 @@
 import N0Verif.Proofs.Esc
 /-! C17: the character-level reference `refAux` (real cuts are counted) against the walk `specG` over
-the pieces of `str.split(d, maxsplit)` — equal outside the class of the open finding C17-j -/
+the pieces of `str.split(d, maxsplit)` — equal outside the class of the (fixed) finding C17-j -/
 namespace N0.Esc
 open N0 N0.Py
 
@@ -83,5 +83,26 @@ theorem refAux_eq_specG (e : Char) (d : Str) (tr : Bool) : ∀ (s : Str) (lim : 
       · have hsw' : startsWith (c :: s) d = false := by simpa using hsw
         simp only [hsw', Bool.and_false, Bool.false_eq_true, if_false] at h ⊢
         rw [ih _ _ _ h, escRef_specG_consHead _ _ _ _ _ _ (splitAux_ne_nil _ _ _ _)]
+
+/-- text without the escape character is outside the class (nothing in it is escaped) -/
+theorem escWithin_no_escape (e : Char) (d : Str) : ∀ (s : Str) (lim : Option Nat) (sk : Nat) (cur : Str),
+    e ∉ cur → e ∉ s → escWithin e d lim sk cur s = false := by
+  intro s
+  induction s with
+  | nil => intro lim sk cur _ _; cases sk <;> rfl
+  | cons c s ih =>
+    intro lim sk cur hc hs
+    have hs' : e ∉ s := fun h => hs (List.mem_cons_of_mem _ h)
+    have hce : e ≠ c := fun h => hs (by simp [h])
+    cases sk with
+    | succ k => rw [escWithin]; exact ih _ _ _ hc hs'
+    | zero =>
+      rw [escWithin]
+      have hr : run e cur = 0 := run_eq_zero _ _ (fun hl => hc (List.mem_of_getLast? hl))
+      split
+      · split
+        · rfl
+        · rw [if_neg (by rw [hr]; decide)]; exact ih _ _ _ (by simp) hs'
+      · exact ih _ _ _ (by simp [hc, hce]) hs'
 
 end N0.Esc
